@@ -51,6 +51,8 @@ structure Cfg where
   backup : Bool
   /-- `convergence_error` -/
   convErr : Bool
+  /-- `wn.options.time.report_start` (report times are `report_start + k * report_timestep`, `k ≥ 0`) -/
+  reportStart : Int := 0
   deriving Repr, Inhabited
 
 /-- how the loop was left -/
@@ -122,8 +124,10 @@ def solvePhase (wd : World W RN RL) (cfg : Cfg) (s : St W RN RL) : St W RN RL ×
 def failHalt (cfg : Cfg) : Halt := if cfg.convErr then .raiseNoConv else .flagNoConv
 def trialHalt (cfg : Cfg) : Halt := if cfg.convErr then .raiseTrials else .flagTrials
 
-/-- `isinstance(report, (float,int)) and sim_time % report == 0`, or report == 'ALL' -/
-def reportNow (cfg : Cfg) (t : Int) : Bool := cfg.report == 0 || t % cfg.report == 0
+/-- `isinstance(report, (float,int)) and sim_time >= report_start and (sim_time - report_start) % report == 0`,
+or report == 'ALL' -/
+def reportNow (cfg : Cfg) (t : Int) : Bool :=
+  cfg.report == 0 || (decide (t ≥ cfg.reportStart) && (t - cfg.reportStart) % cfg.report == 0)
 
 /-- the tail of the loop body after "no changes made by postsolve controls": save, advance the clock, test the end -/
 def acceptPhase (wd : World W RN RL) (cfg : Cfg) (s : St W RN RL) : St W RN RL :=
@@ -244,7 +248,7 @@ inductive Cond where
   | trialGtMax            -- `trial > max_trials`
   | reportNumeric         -- `isinstance(self._report_timestep, (float, int))`
   | reportAll             -- `self._report_timestep.upper() == 'ALL'`
-  | onGrid                -- `self._wn.sim_time % self._report_timestep == 0`
+  | onGrid                -- `self._wn.sim_time >= report_start and (self._wn.sim_time - report_start) % self._report_timestep == 0`
   | alreadySolved         -- `len(results.time) > 0 and int(self._wn.sim_time) == results.time[-1]`
   | nonIntegral           -- `int(self._wn.sim_time) != self._wn.sim_time`
   | pastDuration          -- `self._wn.sim_time > self._wn.options.time.duration`
@@ -267,6 +271,7 @@ inductive Act where
   | updatePrev            -- `wntr.sim.hydraulics.update_network_previous_values(self._wn)`
   | clearFirst            -- `first_step = False`
   | advance               -- `sim_time += hyd; overstep = float(sim_time) % hyd; sim_time -= overstep`
+  | readReportStart       -- `report_start = self._wn.options.time.report_start`
   deriving DecidableEq, Repr
 
 inductive Exc where
@@ -328,7 +333,7 @@ def evalCond (cfg : Cfg) (m : Mach W RN RL) : Cond → Bool
   | .trialGtMax => m.s.trial > cfg.maxTrials
   | .reportNumeric => cfg.report != 0
   | .reportAll => cfg.report == 0
-  | .onGrid => m.s.simTime % cfg.report == 0
+  | .onGrid => decide (m.s.simTime ≥ cfg.reportStart) && (m.s.simTime - cfg.reportStart) % cfg.report == 0
   | .alreadySolved => m.s.times.getLast? = some m.s.simTime
   | .nonIntegral => false
   | .pastDuration => m.s.simTime > cfg.duration
@@ -352,6 +357,7 @@ def doAct (wd : World W RN RL) (cfg : Cfg) (m : Mach W RN RL) : Act → Mach W R
   | .updatePrev => { m with s := { m.s with accepted := m.s.accepted ++ [m.s.simTime], prevTime := m.s.simTime } }
   | .clearFirst => { m with s := { m.s with firstStep := false } }
   | .advance => { m with s := { m.s with simTime := (m.s.simTime + cfg.hyd) - (m.s.simTime + cfg.hyd) % cfg.hyd } }
+  | .readReportStart => m
 
 /-- structured-control-flow interpreter: a statement runs only while the flow is `normal` -/
 def execS (wd : World W RN RL) (cfg : Cfg) : Stmt → Mach W RN RL → Mach W RN RL
@@ -434,10 +440,12 @@ def refBody : Stmt := block [
       .cont]) .skip,
   .act (.setResolve false),
   .ite .reportNumeric
-    (.ite .onGrid (block [
+    (block [
+      .act .readReportStart,
+      .ite .onGrid (block [
         .act .save,
         .ite .alreadySolved (.ite .nonIntegral (.raise .subSecond) (.raise .alreadySolved)) .skip,
-        .act .appendTime]) .skip)
+        .act .appendTime]) .skip])
     (.ite .reportAll (block [
         .act .save,
         .ite .alreadySolved (.raise .alreadySolved) .skip,
